@@ -18,8 +18,9 @@ class EffectDomain(DefaultDomain):
     track_lists = True
     exact_dicts = True
     exact_lists = True
+    inline_contextmanagers = True
 
-    def __init__(self, classes, attrs=None, track=None, results=None, raises=None, consts=True, inline=True, log_cap=12, lacks=(), oracle=None, ctors=(), track_stores=()):
+    def __init__(self, classes, attrs=None, track=None, results=None, raises=None, consts=True, inline=True, log_cap=12, lacks=(), oracle=None, ctors=(), track_stores=(), log_reads=()):
         self.classes = classes
         self.attrs = dict(attrs or {})
         self.track = track or (lambda d: False)
@@ -31,6 +32,7 @@ class EffectDomain(DefaultDomain):
         self.lacks = set(lacks)             # {(object id, attribute)} a wrapped object does not have
         self.oracle = oracle               # (name, pos, kw) -> [("val", v) | ("exc", e)] | None: behaviour of a wrapped object's method
         self.ctors = set(ctors)             # callables whose result is the symbolic object ("new", name, args, kwargs)
+        self.log_reads = set(log_reads)     # data attributes of wrapped objects whose reads are logged as "<id>.<attr>:read"
         self.track_stores = set(track_stores)  # "self.<attr>" keys whose assignments are logged as ("store:<key>", (value,), (), "ok")
 
     # -- values -------------------------------------------------------------------------
@@ -299,6 +301,21 @@ class EffectDomain(DefaultDomain):
             return interp.inline(fn[1], {params[0]: arg} if params else {}, st, fr, receiver=fr.receiver, is_method=False)
         return [val(TOP, st)]
 
+    def load_attr_multi(self, chain, st, fr):
+        """obj.attr read (not a call) on a wrapped object: logged when ``log_reads`` names the attribute."""
+        if not self.log_reads or not all(isinstance(c, str) for c in chain) or len(chain) < 2:
+            return None
+        base = ".".join(chain[:-1])
+        v = self.attrs.get(base)
+        if v is None and len(chain) == 2:
+            v = st.get(fr.local(chain[0]), None)
+        if isinstance(v, tuple) and v[:1] == ("wobj",) and chain[-1] in self.log_reads:
+            name = f"{v[1]}.{chain[-1]}"
+            log = st.get("ev.calls", ())
+            val_ = self.attrs.get(name, ("attr", v, ("const", chain[-1])))
+            return [val(val_, st.set("ev.calls", log + ((name + ":read", (), (), "ok"),)))]
+        return None
+
     def load_attr(self, chain, st, fr):
         if all(isinstance(c, str) for c in chain):
             d = ".".join(chain)
@@ -314,6 +331,22 @@ class EffectDomain(DefaultDomain):
                     a = self.attrs.get(f"{v[1]}.{chain[-1]}")
                     return a if a is not None else ("bound", v[1], chain[-1])
         return None
+
+    def with_enter(self, interp, item, value, st, fr):
+        if isinstance(value, tuple) and value[:1] == ("wobj",):
+            log = st.get("ev.calls", ())
+            depth = st.get("ev.with." + value[1], 0)
+            return [val(NONE, st.set("ev.calls", log + ((f"{value[1]}.__enter__", (), (), "ok"),)).set("ev.with." + value[1], depth + 1))]
+        return None
+
+    def with_exit(self, interp, stmt, kind, payload, st, fr):
+        for item in reversed(stmt.items):
+            d_ = dotted(item.context_expr)
+            v = self.attrs.get(d_) if d_ else None
+            if isinstance(v, tuple) and v[:1] == ("wobj",) and st.get("ev.with." + v[1], 0) > 0:
+                log = st.get("ev.calls", ())
+                st = st.set("ev.calls", log + ((f"{v[1]}.__exit__", (), (), "ok"),)).set("ev.with." + v[1], st.get("ev.with." + v[1]) - 1)
+        return st
 
     def store_attr(self, key, value, st, fr):
         if key in self.track_stores:
@@ -383,11 +416,13 @@ class EffectDomain(DefaultDomain):
             if outcomes is None:
                 outcomes = [("val", v) for v in self.results.get(name, self.results.get("*." + bound[2], [("ret", name if isinstance(obj, tuple) else obj, bound[2])]))]
                 outcomes += [("exc", e) for e in self.raises.get(name, self.raises.get("*." + bound[2], []))]
-            for kind, v in outcomes:
+            for oc in outcomes:
+                kind, v = oc[0], oc[1]
+                tag = oc[2] if len(oc) > 2 else None
                 if kind == "val":
-                    out.append(val(v, logged("ok")))
+                    out.append(val(v, logged(tag or "ok")))
                 else:
-                    out.append(exc(v, logged(v[1] if isinstance(v, tuple) and len(v) > 1 else "raised")))
+                    out.append(exc(v, logged(tag or (v[1] if isinstance(v, tuple) and len(v) > 1 else "raised"))))
         return out
 
     # -- calls --------------------------------------------------------------------------
@@ -411,6 +446,9 @@ class EffectDomain(DefaultDomain):
                         out.append(val(r.value[2], r.state))
                     else:
                         out.append(exc(("exc", "AttributeError"), r.state))
+                elif d == "getattr" and obj == ("self",) and isinstance(name, tuple) and name[:1] == ("const",) and (r.state.has("self." + str(name[1])) or ("self." + str(name[1])) in self.attrs):
+                    key_ = "self." + str(name[1])
+                    out.append(val(r.state.get(key_) if r.state.has(key_) else self.attrs[key_], r.state))
                 elif d == "getattr" and isinstance(obj, tuple) and obj[:1] in (("arg",), ("new",), ("attr",)) and isinstance(name, tuple) and name[:1] in (("const",), ("arg",)):
                     out.append(val(("attr", obj, name), r.state))
                 else:
